@@ -17,7 +17,7 @@ fn sched_mode(rng: &mut Rng, cache_yields: bool) -> ParMode {
     ParMode::Sched { strategy, budget: 200_000, poll_yields: rng.chance(2, 3), cache_yields }
 }
 /// after a scheduled run: make the case replayable (store the grants)
-fn with_grants(spec: &CaseSpec, out: &Outcome) -> CaseSpec {
+pub fn with_grants(spec: &CaseSpec, out: &Outcome) -> CaseSpec {
     let mut s = spec.clone();
     if let (Some(p), Some(r)) = (&mut s.cfg.par, &out.sched) {
         if let ParMode::Sched { strategy, .. } = &mut p.mode { *strategy = Strategy::Replay(r.grants()); }
